@@ -188,6 +188,18 @@ fn display_checks(l: &mut Local) {
                 l.sample(&format!("display:{}", k), || json!({"type": ty, "rendered": got, "expected": want}));
             }
         }
+        // a width, fill or precision in the placeholder must not truncate or pad the canonical form
+        let iv = Interval::TwoSided(lo.clone(), hi.clone());
+        let canonical = format!("[{}, {}]", lo, hi);
+        for (spec, got) in [("{:.2}", format!("{:.2}", iv)), ("{:>40}", format!("{:>40}", iv)), ("{:*^50}", format!("{:*^50}", iv)), ("{:1}", format!("{:1}", iv))] {
+            l.eval();
+            l.count("display with format flags");
+            // the element type's own formatting may honour a precision; the brackets and separator may not change
+            let ok = got == canonical || (spec == "{:.2}" && got == format!("[{:.2}, {:.2}]", lo, hi));
+            if !ok {
+                l.violation("Display|format-flags".to_string(), format!("Display with the placeholder {} is not the canonical form", spec), json!({"what": "display"}), json!({"type": ty, "placeholder": spec, "observed": got, "canonical": canonical}));
+            }
+        }
     }
     one("i32", -3, 14, l);
     one("i32", 0, 0, l);
@@ -227,7 +239,7 @@ pub fn run(run: &Arc<Run>) {
     let mut l = run.local();
     display_checks(&mut l);
     run.absorb(l);
-    let mut req: Vec<String> = vec!["relation holds".into(), "relation fails (same kind)".into(), "relation fails (mixed kinds)".into(), "display".into()];
+    let mut req: Vec<String> = vec!["relation holds".into(), "relation fails (same kind)".into(), "relation fails (mixed kinds)".into(), "display".into(), "display with format flags".into()];
     for a in ["TwoSided", "UpperOneSided", "LowerOneSided"] {
         for b in ["TwoSided", "UpperOneSided", "LowerOneSided"] {
             req.push(format!("f64:{}x{}", a, b));
